@@ -141,6 +141,23 @@ def _stored_tasks(ctx, modname, clsname):
                 for a in st.args:
                     if isinstance(a, ast.Call) and (dotted(a.func) or "").endswith("create_task"):
                         out.append((f"{clsname}.{name}", ".".join(dotted(st.func).split(".")[:-1]), a))
+        # handles that pass through a local first: `t = create_task(...)` ... `self.x.append(t)` / `self.x = t`
+        f = None
+        for st in walk_no_nested(fnode):
+            cand = None
+            if isinstance(st, ast.Call) and (dotted(st.func) or "").startswith("self.") and (dotted(st.func) or "").split(".")[-1] in ("append", "add") and len(st.args) == 1 and isinstance(st.args[0], ast.Name):
+                cand = (st.args[0], ".".join(dotted(st.func).split(".")[:-1]), st)
+            elif isinstance(st, ast.Assign) and isinstance(st.value, ast.Name) and len(st.targets) == 1 and (dotted(st.targets[0]) or "").startswith("self."):
+                cand = (st.value, dotted(st.targets[0]), st)
+            if cand is None:
+                continue
+            f = f or Fn(ctx.repo, m, f"{clsname}.{name}")
+            node = f.node_of(cand[2])
+            if node is None:
+                continue
+            u = f.unique_def_value(cand[0].id, node)
+            if u is not None and isinstance(u[1], ast.Call) and (dotted(u[1].func) or "").endswith("create_task"):
+                out.append((f"{clsname}.{name}", cand[1], u[1]))
     return out
 
 
